@@ -889,3 +889,409 @@ Proof.
   - rewrite impl_DT_6. destruct (_ && _); congruence.
   - rewrite impl_DT_8. destruct (_ && _); congruence.
 Qed.
+
+(* ------------------------------------------------------------------ *)
+(* DTM = DT followed by TM                                               *)
+
+Definition time_tag (t : dtag) : bool := match t with TH | TMi | TS | Tdot | Tf => true | _ => false end.
+Definition merge (v w : dtv) : dtv := mk_dtv (yr v) (mo v) (dy v) (hh w) (mi w) (ss w) (us w).
+
+Lemma set_fields_merge f : forallb time_tag f = true ->
+  forall ts v w, set_fields (merge v w) f ts = merge v (set_fields w f ts).
+Proof.
+  induction f as [|t f IH]; intros Hf ts v w; [reflexivity|].
+  cbn in Hf. apply andb_prop in Hf. destruct Hf as [Ht Hf].
+  destruct ts as [|x ts]; [reflexivity|]. cbn [set_fields]. rewrite <- (IH Hf). f_equal.
+  destruct t; try discriminate; reflexivity.
+Qed.
+
+Lemma strftime_merge_time f v w : forallb time_tag f = true -> strftime (merge v w) f = strftime w f.
+Proof.
+  unfold strftime. induction f as [|t f IH]; intros Hf; [reflexivity|].
+  cbn in Hf. apply andb_prop in Hf. destruct Hf as [Ht Hf]. cbn [flat_map]. rewrite (IH Hf). f_equal.
+  destruct t; try discriminate; reflexivity.
+Qed.
+
+Lemma dtv_valid_merge v w : dtv_valid (merge v w) = dtv_valid (merge v dtv0) && dtv_valid (merge dtv0 w).
+Proof.
+  unfold dtv_valid, merge, dtv0. cbn [yr mo dy hh mi ss us].
+  repeat match goal with |- context [N.leb ?a ?b] =>
+    match a with
+    | yr _ => fail 1 | mo _ => fail 1 | dy _ => fail 1 | hh _ => fail 1 | mi _ => fail 1 | ss _ => fail 1 | us _ => fail 1
+    | _ => match b with
+           | yr _ => fail 2 | mo _ => fail 2 | dy _ => fail 2
+           | days_in_month _ _ => fail 2
+           | _ => let c := eval vm_compute in (N.leb a b) in change (N.leb a b) with c
+           end
+    end end.
+  rewrite ?andb_true_r.
+  destruct (N.leb 1 (yr v)), (N.leb (yr v) 9999), (N.leb 1 (mo v)), (N.leb (mo v) 12), (N.leb 1 (dy v)),
+    (N.leb (dy v) (days_in_month (yr v) (mo v))), (N.leb (hh w) 23), (N.leb (mi w) 59), (N.leb (ss w) 59),
+    (N.leb (us w) 999999); reflexivity.
+Qed.
+
+Lemma timestamp_format_inv t f prec : timestamp_format t = Ok (f, prec) ->
+  (f = [TH] /\ length t = 2 /\ prec = 4) \/ (f = [TH; TMi] /\ length t = 4 /\ prec = 4) \/
+  (f = [TH; TMi; TS] /\ length t = 6 /\ prec = 4) \/
+  (f = [TH; TMi; TS; Tdot; Tf] /\ 8 <= length t <= 11 /\ nth_error t 6 = Some c_dot /\ prec = length t - 7).
+Proof.
+  unfold timestamp_format.
+  destruct (length t =? 2) eqn:E2; [apply Nat.eqb_eq in E2; intros H; injection H as <- <-; auto|].
+  destruct (length t =? 4) eqn:E4; [apply Nat.eqb_eq in E4; intros H; injection H as <- <-; auto|].
+  destruct (length t =? 6) eqn:E6; [apply Nat.eqb_eq in E6; intros H; injection H as <- <-; auto 6|].
+  destruct ((8 <=? length t) && (length t <=? 11) && _) eqn:E; [|discriminate].
+  intros H. injection H as <- <-. apply andb_prop in E. destruct E as [E E3]. apply andb_prop in E. destruct E as [E1 E2'].
+  apply Nat.leb_le in E1, E2'. right. right. right. repeat split; auto.
+  destruct (nth_error t 6) as [c|]; [|discriminate]. apply beqb_eq in E3. now subst.
+Qed.
+
+Lemma timestamp_format_err t x : timestamp_format t = Err x -> x = PyValueError.
+Proof.
+  unfold timestamp_format. destruct (length t =? 2); [discriminate|]. destruct (length t =? 4); [discriminate|].
+  destruct (length t =? 6); [discriminate|]. destruct (_ && _); [discriminate|]. congruence.
+Qed.
+
+Lemma strptime_err s f x : strptime s f = Err x -> x = PyValueError.
+Proof.
+  unfold strptime. destruct (rmatch _ s) as [[ts rest]|]; [|congruence].
+  destruct (nilb rest); [|congruence]. destruct (dtv_valid _); congruence.
+Qed.
+
+(* the time part alone: what tm_body_exact says about strptime and encode_tm *)
+Lemma tm_core t f prec : timestamp_format t = Ok (f, prec) ->
+  forallb time_tag f = true /\ 1 <= prec <= 4 /\
+  match strptime t f with
+  | Ok w => spec_time t = true /\ encode_tm w f [] prec = t
+  | Err _ => spec_time t = false
+  end.
+Proof.
+  intros Hf. pose proof (tm_body_exact t [] eq_refl) as H. unfold tm_of_body in H. rewrite Hf in H.
+  cbn [bind fst snd] in H.
+  assert (Hfp : forallb time_tag f = true /\ 1 <= prec <= 4 /\ smem (fmt_str f) tm_formats = true).
+  { destruct (timestamp_format_inv _ _ _ Hf) as [[-> [_ ->]]|[[-> [_ ->]]|[[-> [_ ->]]|[-> [L [_ ->]]]]]];
+      repeat split; try reflexivity; try lia. }
+  destruct Hfp as [Ht [Hp Hs]]. repeat split; auto; try lia.
+  destruct (strptime t f) as [w|x]; cbn [bind] in H.
+  - rewrite (tm_ctor_ok _ _ _ _ Hs) in H by (auto; lia). cbn [bind] in H.
+    destruct (spec_time t); [|discriminate]. apply Ok_inj in H. rewrite app_nil_r in H. auto.
+  - destruct (spec_time t); [discriminate|reflexivity].
+Qed.
+
+Definition comb (r1 r2 : result dtv) : result dtv :=
+  match r1, r2 with Ok v1, Ok v2 => Ok (merge v1 v2) | _, _ => Err PyValueError end.
+
+Ltac split_valid :=
+  match goal with |- context [dtv_valid (mk_dtv ?y ?m ?d ?h ?mi ?s ?u)] =>
+    change (mk_dtv y m d h mi s u) with (merge (mk_dtv y m d 0 0 0 0) (mk_dtv 1900 1 1 h mi s u));
+    rewrite dtv_valid_merge;
+    change (merge (mk_dtv y m d 0 0 0 0) dtv0) with (mk_dtv y m d 0 0 0 0);
+    change (merge dtv0 (mk_dtv 1900 1 1 h mi s u)) with (mk_dtv 1900 1 1 h mi s u)
+  end.
+
+Lemma strptime_date_time a b c d m1 m2 d1 d2 t f prec : timestamp_format t = Ok (f, prec) ->
+  strptime ([a; b; c; d; m1; m2; d1; d2] ++ t) ([TY; Tm; Td] ++ f) =
+  comb (strptime [a; b; c; d; m1; m2; d1; d2] [TY; Tm; Td]) (strptime t f).
+Proof.
+  intros Hf.
+  rewrite (strptime_exact [TY; Tm; Td] [a; b; c; d; m1; m2; d1; d2]) by reflexivity.
+  destruct (timestamp_format_inv _ _ _ Hf) as [[-> [L _]]|[[-> [L _]]|[[-> [L _]]|[-> [L [Hn _]]]]]].
+  1-3: rewrite (strptime_exact _ t) by (try reflexivity; rewrite L; reflexivity);
+       rewrite (strptime_exact _ (_ ++ t)) by (try reflexivity; rewrite app_length, L; reflexivity);
+       cbn [map group_of width slices take drop firstn skipn app forallb2 set_fields set_field dtv0
+            yr mo dy hh mi ss us];
+       rewrite ?andb_true_r;
+       repeat match goal with |- context [matched ?g ?x] => destruct (matched g x) end;
+       cbn [andb comb]; try reflexivity;
+       try split_valid;
+       repeat match goal with |- context [dtv_valid ?v] => destruct (dtv_valid v) end;
+       reflexivity.
+  (* fraction *)
+  change ([TY; Tm; Td] ++ [TH; TMi; TS; Tdot; Tf]) with ([TY; Tm; Td; TH; TMi; TS] ++ [Tdot; Tf]).
+  change [TH; TMi; TS; Tdot; Tf] with ([TH; TMi; TS] ++ [Tdot; Tf]).
+  rewrite (strptime_frac [TH; TMi; TS] t) by (try reflexivity; auto; cbn; lia).
+  rewrite (strptime_frac [TY; Tm; Td; TH; TMi; TS] (_ ++ t))
+    by (try reflexivity; try exact Hn; try (rewrite app_length; cbn; lia)).
+  change (fmt_len [TH; TMi; TS]) with 6. change (fmt_len [TY; Tm; Td; TH; TMi; TS]) with 14.
+  cbn [map group_of width slices take drop firstn skipn app forallb2 Nat.add set_fields set_field dtv0
+       yr mo dy hh mi ss us].
+  rewrite ?andb_true_r.
+  repeat match goal with |- context [matched ?g ?x] => destruct (matched g x) end;
+    cbn [andb comb]; try reflexivity.
+  all: try match goal with |- context [all_dig ?x] => destruct (all_dig x) end; cbn [andb comb]; try reflexivity.
+  all: try split_valid;
+       repeat match goal with |- context [dtv_valid ?v] => destruct (dtv_valid v) end;
+       reflexivity.
+Qed.
+
+Lemma padn_length k : forall n, length (padn k n) = k.
+Proof. induction k as [|k IH]; intros n; [reflexivity|]. cbn [padn]. rewrite app_length, IH. cbn. lia. Qed.
+
+Lemma firstn_app_keep (D T : str) k : k <= length T ->
+  firstn (length (D ++ T) - k) (D ++ T) = D ++ firstn (length T - k) T.
+Proof.
+  intros Hk. rewrite app_length, firstn_app. rewrite firstn_all2 by lia. f_equal. f_equal. lia.
+Qed.
+
+Lemma encode_tm_merge v1 w f off prec :
+  forallb time_tag f = true -> prec <= 4 -> (has_f f = true -> 6 - prec <= length (strftime w f)) ->
+  encode_tm (merge v1 w) ([TY; Tm; Td] ++ f) off prec =
+  strftime v1 [TY; Tm; Td] ++ encode_tm w f [] prec ++ off.
+Proof.
+  intros Hf Hp Hl. unfold encode_tm.
+  assert (Hs : strftime (merge v1 w) ([TY; Tm; Td] ++ f) = strftime v1 [TY; Tm; Td] ++ strftime w f).
+  { unfold strftime at 1. rewrite flat_map_app. fold (strftime (merge v1 w) f). rewrite (strftime_merge_time f v1 w Hf).
+    reflexivity. }
+  rewrite Hs. change (has_f ([TY; Tm; Td] ++ f)) with (has_f f).
+  destruct (has_f f) eqn:Ef.
+  - assert ((6 - prec =? 0) = false) as -> by (apply Nat.eqb_neq; lia).
+    unfold take. rewrite (firstn_app_keep _ _ _ (Hl eq_refl)). now rewrite app_nil_r, <- app_assoc.
+  - now rewrite app_nil_r, <- app_assoc.
+Qed.
+
+Definition dtm_of_body (allowed : list str) (body off : str) : result str :=
+  (do df <- date_format (take 8 body);
+   do tp <- match timestamp_format (drop 8 body) with
+            | Ok tp => Ok tp
+            | Err PyValueError => if nilb (drop 8 body) then Ok ([], 4) else Err PyValueError
+            | Err e => Err e
+            end;
+   do v <- strptime body (df ++ fst tp);
+   do _ <- tm_ctor allowed (df ++ fst tp) off (snd tp);
+   Ok (encode_tm v (df ++ fst tp) off (snd tp)))%res.
+
+Lemma impl_DTM_body s : impl_DTM s = dtm_of_body dtm_formats (fst (split_offset s)) (snd (split_offset s)).
+Proof.
+  unfold impl_DTM, get_datetime_info, dtm_of_body. destruct (split_offset s) as [b o]. cbn [fst snd].
+  destruct (date_format (take 8 b)) as [df|e]; cbn [bind]; [|reflexivity].
+  destruct (match timestamp_format (drop 8 b) with Ok tp => Ok tp | Err PyValueError => _ | Err e => Err e end)
+    as [[tf p]|e]; cbn [bind fst snd]; [|reflexivity].
+  destruct (strptime b (df ++ tf)); reflexivity.
+Qed.
+
+Definition date_enc (d : str) : str := match impl_DT d with Ok e => e | Err _ => d end.
+Definition dtm_enc (b : str) : str := date_enc (take 8 b) ++ drop 8 b.
+Definition dtm_body_ok (b : str) : bool :=
+  accepts (impl_DT (take 8 b)) && (nilb (drop 8 b) || spec_time (drop 8 b)).
+
+Lemma date_format_inv s f : date_format s = Ok f ->
+  (f = [TY] /\ length s = 4) \/ (f = [TY; Tm] /\ length s = 6) \/ (f = [TY; Tm; Td] /\ length s = 8).
+Proof.
+  unfold date_format.
+  destruct (length s =? 4) eqn:E4; [apply Nat.eqb_eq in E4; intros H; injection H as <-; auto|].
+  destruct (length s =? 6) eqn:E6; [apply Nat.eqb_eq in E6; intros H; injection H as <-; auto|].
+  destruct (length s =? 8) eqn:E8; [apply Nat.eqb_eq in E8; intros H; injection H as <-; auto|discriminate].
+Qed.
+
+Lemma dtm_formats_ok :
+  forallb (fun f => smem (fmt_str f) dtm_formats)
+    ([[TY]; [TY; Tm]; [TY; Tm; Td]] ++
+     map (app [TY; Tm; Td]) [[TH]; [TH; TMi]; [TH; TMi; TS]; [TH; TMi; TS; Tdot; Tf]]) = true.
+Proof. vm_compute. reflexivity. Qed.
+
+Lemma dtm_smem f : In f ([[TY]; [TY; Tm]; [TY; Tm; Td]] ++
+     map (app [TY; Tm; Td]) [[TH]; [TH; TMi]; [TH; TMi; TS]; [TH; TMi; TS; Tdot; Tf]]) ->
+  smem (fmt_str f) dtm_formats = true.
+Proof. intros H. pose proof dtm_formats_ok as F. rewrite forallb_forall in F. now apply F. Qed.
+
+Lemma dt_smem f : In f [[TY]; [TY; Tm]; [TY; Tm; Td]] -> smem (fmt_str f) dt_formats = true.
+Proof. intros H. pose proof dt_formats_ok as F. rewrite forallb_forall in F. now apply F. Qed.
+
+(* no time part *)
+Lemma dtm_body_date b off : off_okc off = true -> drop 8 b = [] ->
+  dtm_of_body dtm_formats b off = if dtm_body_ok b then Ok (dtm_enc b ++ off) else Err PyValueError.
+Proof.
+  intros Ho Hd. unfold dtm_of_body, dtm_body_ok, dtm_enc, date_enc. rewrite Hd.
+  assert (Ht : take 8 b = b).
+  { unfold take, drop in *. rewrite <- (firstn_skipn 8 b) at 2. rewrite Hd. now rewrite app_nil_r. }
+  rewrite Ht. cbn [timestamp_format length Nat.eqb Nat.leb andb nilb bind fst snd orb]. rewrite andb_true_r.
+  unfold impl_DT, get_date_info.
+  destruct (date_format b) as [df|x] eqn:Ef; cbn [bind].
+  - rewrite app_nil_r.
+    assert (Hin : In df [[TY]; [TY; Tm]; [TY; Tm; Td]]).
+    { destruct (date_format_inv _ _ Ef) as [[-> _]|[[-> _]|[-> _]]]; cbn; auto. }
+    destruct (strptime b df) as [v|x] eqn:Es; cbn [bind fst snd].
+    + rewrite tm_ctor_ok; auto; try lia.
+      2:{ apply dtm_smem. apply in_or_app. now left. }
+      unfold dt_ctor. rewrite (dt_smem df Hin). cbn [bind accepts is_ok].
+      unfold encode_tm.
+      assert (has_f df = false) as -> by (destruct Hin as [<-|[<-|[<-|[]]]]; reflexivity).
+      now rewrite app_nil_r.
+    + now rewrite (strptime_err _ _ _ Es).
+  - unfold date_format in Ef. destruct (length b =? 4); [discriminate|]. destruct (length b =? 6); [discriminate|].
+    destruct (length b =? 8); [discriminate|]. injection Ef as <-. reflexivity.
+Qed.
+
+Lemma tm_format_err_spec t x : timestamp_format t = Err x -> spec_time t = false.
+Proof.
+  intros H. pose proof (tm_body_exact t [] eq_refl) as E. unfold tm_of_body in E. rewrite H in E. cbn [bind] in E.
+  destruct (spec_time t); [discriminate|reflexivity].
+Qed.
+
+Lemma strftime_frac_len w : length (strftime w [TH; TMi; TS; Tdot; Tf]) = 13.
+Proof. unfold strftime. cbn [flat_map strf_piece]. rewrite !app_length, !padn_length. reflexivity. Qed.
+
+(* date and time *)
+Lemma dtm_body_time a b c d m1 m2 d1 d2 x t off : off_okc off = true ->
+  let body := [a; b; c; d; m1; m2; d1; d2] ++ x :: t in
+  dtm_of_body dtm_formats body off = if dtm_body_ok body then Ok (dtm_enc body ++ off) else Err PyValueError.
+Proof.
+  intros Ho body. unfold dtm_of_body, dtm_body_ok, dtm_enc, date_enc. subst body.
+  cbn [app take drop firstn skipn nilb orb]. set (d8 := [a; b; c; d; m1; m2; d1; d2]). set (tt := x :: t).
+  change (date_format d8) with (@Ok (list dtag) [TY; Tm; Td]). cbn [bind].
+  change (a :: b :: c :: d :: m1 :: m2 :: d1 :: d2 :: tt) with (d8 ++ tt).
+  assert (Hdt : impl_DT d8 = match strptime d8 [TY; Tm; Td] with
+                             | Ok v => Ok (strftime v [TY; Tm; Td]) | Err e => Err e end).
+  { unfold impl_DT, get_date_info. change (date_format d8) with (@Ok (list dtag) [TY; Tm; Td]). cbn [bind].
+    destruct (strptime d8 [TY; Tm; Td]); cbn [bind fst snd]; [|reflexivity].
+    unfold dt_ctor. rewrite (dt_smem [TY; Tm; Td]) by (cbn; auto). reflexivity. }
+  destruct (timestamp_format tt) as [[f prec]|e] eqn:Ef.
+  - cbn [bind fst snd]. unfold d8 at 1. rewrite (strptime_date_time _ _ _ _ _ _ _ _ tt f prec Ef). fold d8.
+    destruct (tm_core tt f prec Ef) as [Htag [Hp Hcore]]. rewrite Hdt.
+    destruct (strptime d8 [TY; Tm; Td]) as [v1|e1] eqn:E1; cbn [comb].
+    + destruct (strptime tt f) as [w|e2] eqn:E2; cbn [bind accepts is_ok andb].
+      * destruct Hcore as [Hsp Henc]. rewrite Hsp.
+        rewrite tm_ctor_ok; auto.
+        2:{ apply dtm_smem. apply in_or_app. right. apply in_map.
+            destruct (timestamp_format_inv _ _ _ Ef) as [[-> _]|[[-> _]|[[-> _]|[-> _]]]]; cbn; auto. }
+        cbn [bind]. rewrite encode_tm_merge; auto; try lia.
+        -- now rewrite Henc, app_assoc.
+        -- intros Hh. destruct (timestamp_format_inv _ _ _ Ef) as [[-> _]|[[-> _]|[[-> _]|[-> _]]]]; try discriminate.
+           rewrite strftime_frac_len. lia.
+      * now rewrite Hcore.
+    + cbn [bind accepts is_ok andb]. reflexivity.
+  - rewrite (timestamp_format_err _ _ Ef). cbn [bind]. rewrite (tm_format_err_spec _ _ Ef). now rewrite andb_false_r.
+Qed.
+
+Theorem dtm_body_exact b off : off_okc off = true ->
+  dtm_of_body dtm_formats b off = if dtm_body_ok b then Ok (dtm_enc b ++ off) else Err PyValueError.
+Proof.
+  intros Ho.
+  destruct b as [|a [|b0 [|c [|d [|m1 [|m2 [|d1 [|d2 [|x t]]]]]]]]]; try (apply dtm_body_date; auto; reflexivity).
+  apply (dtm_body_time a b0 c d m1 m2 d1 d2 x t off Ho).
+Qed.
+
+(* ---- DTM against the specification ---- *)
+
+Lemma spec_datetime_alt b :
+  spec_datetime b = spec_date (take 8 b) && (nilb (drop 8 b) || spec_time (drop 8 b)).
+Proof.
+  unfold spec_datetime, take, drop. destruct (length b <=? 8) eqn:L.
+  - apply Nat.leb_le in L. rewrite firstn_all2, skipn_all2 by lia. cbn [nilb orb]. now rewrite andb_true_r.
+  - apply Nat.leb_gt in L. destruct (skipn 8 b) as [|x t] eqn:E; [|reflexivity].
+    pose proof (skipn_length 8 b) as H. rewrite E in H. cbn in H. lia.
+Qed.
+
+Lemma dtm_body_ok_alt b : dtm_body_ok b = dtm_body_impl b.
+Proof.
+  unfold dtm_body_ok, dtm_body_impl, dtm_space_day. rewrite accept_DT_exact, spec_datetime_alt. unfold spec_DT.
+  now rewrite andb_orb_distrib_l.
+Qed.
+
+Lemma spec_date_chars d : spec_date d = true -> forallb body_char d = true.
+Proof.
+  destruct d as [|y1 [|y2 [|y3 [|y4 r]]]]; try discriminate. cbn [spec_date]. intros H.
+  apply andb_prop in H. destruct H as [H Hr]. apply andb_prop in H. destruct H as [H _].
+  apply andb_prop in H. destruct H as [H1 H2]. apply dig2_chars in H1, H2. destruct H1 as [E1 E2]. destruct H2 as [E3 E4].
+  cbn [forallb]. rewrite E1, E2, E3, E4. cbn [andb]. clear E1 E2 E3 E4.
+  destruct r as [|m1 [|m2 r]]; try discriminate; [reflexivity|].
+  apply andb_prop in Hr. destruct Hr as [H1 Hr]. apply in_range2_dig, dig2_chars in H1. destruct H1 as [E1 E2].
+  cbn [forallb]. rewrite E1, E2. cbn [andb]. clear E1 E2.
+  destruct r as [|d1 [|d2 [|z r]]]; try discriminate; [reflexivity|].
+  apply in_range2_dig, dig2_chars in Hr. destruct Hr as [E1 E2]. cbn [forallb]. now rewrite E1, E2.
+Qed.
+
+Lemma dt_space_day_chars d : dt_space_day d = true -> forallb body_char d = true.
+Proof.
+  destruct d as [|y1 [|y2 [|y3 [|y4 [|m1 [|m2 [|sp [|dd [|z r]]]]]]]]]; try discriminate.
+  cbn [dt_space_day]. intros H. boolprop.
+  repeat match goal with H : dig2 _ _ = true |- _ => apply dig2_chars in H; destruct H end.
+  match goal with H : in_range2 1 12 m1 m2 = true |- _ => apply in_range2_dig, dig2_chars in H; destruct H end.
+  assert (body_char sp = true).
+  { unfold body_char. match goal with H : is_c c_space sp = true |- _ => rewrite H end. apply orb_true_r. }
+  assert (body_char dd = true).
+  { assert (SP sp dd = true) as Hsp by (unfold SP; apply andb_true_intro; auto).
+    pose proof (implb_true _ _ (sp_facts sp dd) Hsp) as F. boolprop. unfold body_char.
+    match goal with H : is_digit dd = true |- _ => now rewrite H end. }
+  cbn [forallb].
+  repeat match goal with H : body_char _ = true |- _ => rewrite H; clear H end. reflexivity.
+Qed.
+
+Lemma dtm_body_chars b : dtm_body_ok b = true -> forallb body_char b = true.
+Proof.
+  unfold dtm_body_ok. rewrite accept_DT_exact. unfold spec_DT. intros H. apply andb_prop in H. destruct H as [Hd Ht].
+  rewrite <- (firstn_skipn 8 b). unfold take, drop in *. rewrite forallb_app. apply andb_true_intro. split.
+  - apply orb_prop in Hd. destruct Hd; [now apply spec_date_chars|now apply dt_space_day_chars].
+  - destruct (skipn 8 b) as [|x t] eqn:E; [reflexivity|]. cbn [nilb orb] in Ht. now apply spec_time_chars.
+Qed.
+
+Lemma with_offset_or B1 B2 s :
+  with_offset (fun b => B1 b || B2 b) s = with_offset B1 s || with_offset B2 s.
+Proof.
+  unfold with_offset. destruct (B1 s), (B2 s), (5 <=? length s), (B1 (take (length s - 5) s)),
+    (B2 (take (length s - 5) s)), (spec_offset (drop (length s - 5) s)); reflexivity.
+Qed.
+
+Lemma with_offset_ext B1 B2 s : (forall b, B1 b = B2 b) -> with_offset B1 s = with_offset B2 s.
+Proof. intros H. unfold with_offset. now rewrite !H. Qed.
+Lemma offset_defect_ext B1 B2 s : (forall b, B1 b = B2 b) -> offset_defect B1 s = offset_defect B2 s.
+Proof. intros H. unfold offset_defect. destruct (off_at_end s); [now rewrite H|reflexivity]. Qed.
+
+Lemma dtm_run b o : off_okc o = true ->
+  dtm_of_body dtm_formats b o = if dtm_body_ok b then Ok (dtm_enc b ++ o) else Err PyValueError.
+Proof. apply dtm_body_exact. Qed.
+
+Lemma impl_DTM_off s : impl_DTM s = impl_off (dtm_of_body dtm_formats) s.
+Proof. apply impl_DTM_body. Qed.
+
+(* exactly: the HL7 date-times, those with a blank-padded day, and the repeated-offset values *)
+Theorem accept_DTM_exact s :
+  accepts (impl_DTM s) = spec_DTM s || with_offset dtm_space_day s || offset_defect dtm_body_impl s.
+Proof.
+  rewrite impl_DTM_off. rewrite (offset_layer dtm_body_ok _ dtm_enc dtm_body_chars dtm_run).
+  rewrite (with_offset_ext _ _ s dtm_body_ok_alt), (offset_defect_ext _ _ s dtm_body_ok_alt).
+  unfold dtm_body_impl at 1. now rewrite with_offset_or.
+Qed.
+
+Theorem DTM_only_valueerror s x : impl_DTM s = Err x -> x = PyValueError.
+Proof. rewrite impl_DTM_off. apply (offset_only_valueerror dtm_body_ok _ dtm_enc), dtm_run. Qed.
+
+Lemma spec_datetime_ok b : spec_datetime b = true -> dtm_body_ok b = true.
+Proof. intros H. rewrite dtm_body_ok_alt. unfold dtm_body_impl. now rewrite H. Qed.
+
+Lemma spec_datetime_chars b : spec_datetime b = true -> forallb body_char b = true.
+Proof. intros H. now apply dtm_body_chars, spec_datetime_ok. Qed.
+
+Lemma date_enc_id d : spec_date d = true -> year_ge_1000 d = true -> date_enc d = d.
+Proof.
+  intros Hs Hy. unfold date_enc. destruct (impl_DT d) as [e|x] eqn:E.
+  - now apply (roundtrip_DT d e).
+  - pose proof (accept_DT_exact d) as A. rewrite E in A. unfold spec_DT in A. rewrite Hs in A. discriminate.
+Qed.
+
+Lemma dtm_enc_id b : spec_datetime b = true -> year_ge_1000 b = true -> dtm_enc b = b.
+Proof.
+  intros Hs Hy. rewrite spec_datetime_alt in Hs. apply andb_prop in Hs. destruct Hs as [Hd _].
+  unfold dtm_enc. rewrite date_enc_id; auto.
+  - unfold take, drop. apply firstn_skipn.
+  - destruct b as [|c r]; [discriminate|]. exact Hy.
+Qed.
+
+Lemma year_prefix p o : p <> [] -> year_ge_1000 (p ++ o) = year_ge_1000 p.
+Proof. destruct p; [congruence|reflexivity]. Qed.
+
+Theorem roundtrip_DTM s e : impl_DTM s = Ok e -> spec_DTM s = true -> year_ge_1000 s = true -> e = s.
+Proof.
+  rewrite impl_DTM_off. intros Hi Hs Hy.
+  destruct (offset_decompose dtm_body_ok _ dtm_enc dtm_body_chars dtm_run s e Hi)
+    as [b [o [Hb [He [[Hn [-> ->]]|[Ho [Hbo [Hm Hsp]]]]]]]].
+  - unfold spec_DTM in Hs. rewrite (with_offset_none spec_datetime s Hn) in Hs.
+    rewrite He, (dtm_enc_id s Hs Hy). apply app_nil_r.
+  - destruct (off_match_shape o Hm) as [sg [r [Eo [_ [_ Lr]]]]].
+    assert (Lo : length o = 5) by (rewrite Eo; cbn [length]; lia).
+    set (p := take (length s - 5) s) in *.
+    unfold spec_DTM in Hs. rewrite Hsp, (with_offset_off spec_datetime spec_datetime_chars p o Hm Lo) in Hs.
+    assert (b = p) as ->.
+    { rewrite Hbo, Hsp. now apply (B_prefix_clean spec_datetime spec_datetime_chars). }
+    assert (Hp : p <> []) by (intros E; rewrite E in Hs; discriminate).
+    rewrite Hsp, (year_prefix p o Hp) in Hy. rewrite He, (dtm_enc_id p Hs Hy). symmetry. exact Hsp.
+Qed.
